@@ -29,7 +29,7 @@ OWNER = {
     "put.seq": "C01", "put.nfid": "C06", "verify": "C01", "payload_end": "C24", "doctor.verify": "C21", "vecset": "C14", "ro.file": "C18", "card.query": "C27", "card.temporal": "C27", "card.set": "C27", "card.id": "C27",
     "capacity.accepted": "C24", "capacity.rejected": "C24",
     "card.source": "C26", "card.value": "C26", "card.queue": "C26",
-    "card.latest": "C27", "ticket.verified": "C25", "ticket.binding": "C25", "ticket.signed": "C25",
+    "card.latest": "C27", "mesh.nodes": "C27", "mesh.edges": "C27", "mesh.ids": "C27", "ticket.verified": "C25", "ticket.binding": "C25", "ticket.signed": "C25",
 }
 
 
@@ -602,6 +602,48 @@ def fam_signed_tickets(rng, quick):
     return out
 
 
+def fam_mesh(rng, quick):
+    """C27: logic-mesh nodes and edges (merging identities, duplicate edges) interleaved with memory cards, puts, commits,
+    reopen, a lost handle, vacuum and doctor; the whole mesh is read back after every step that may have changed it."""
+    out = []
+    names = ["Ada", "ada", "bob", "ACME", "Paris"]
+    kinds = ["person", "organization", "location"]
+    links = ["manager", "member", "employer", "related"]
+    for k in range(3 if quick else 40):
+        ops = [{"op": "create"}, {"op": "put", "uri": "mv2://m0", "pay": 1, "cls": "text", "size": 80, "ts": 1}, {"op": "commit"}]
+        start = 0
+        for i in range(rng.randint(10, 20)):
+            c = rng.random()
+            if c < 0.35:
+                start += 3
+                nm = rng.choice(names)
+                ops.append({"op": "mesh_node", "name": nm, "canon": nm.lower(), "kind": rng.choice(kinds), "conf": rng.choice([0, 25, 50, 75, 100]),
+                            "frame": rng.choice([0, 0, 1, 2]), "start": start, "len": 2})
+            elif c < 0.6:
+                a, b = rng.choice(names), rng.choice(names)
+                ops.append({"op": "mesh_edge", "from": a, "cfrom": a.lower(), "fkind": rng.choice(kinds), "to": b, "cto": b.lower(), "tkind": rng.choice(kinds),
+                            "link": rng.choice(links), "conf": rng.choice([25, 50, 100]), "frame": rng.choice([0, 1])})
+            elif c < 0.68:
+                ops.append({"op": "card_put", "entity": "e1", "slot": "s1", "value": i + 1, "rel": "sets", "event_date": i, "frame": 0})
+            elif c < 0.76:
+                ops += [{"op": "commit"}, {"op": "mesh"}]
+            elif c < 0.84:
+                ops += [{"op": "close"}, {"op": "open"}, {"op": "mesh"}]
+            elif c < 0.9:
+                ops += [{"op": "abandon"}, {"op": "open"}, {"op": "mesh"}]
+            elif c < 0.94:
+                ops += [{"op": "vacuum"}, {"op": "mesh"}]
+            elif c < 0.97:
+                ops += [{"op": "close"}, {"op": "doctor"}, {"op": "open"}, {"op": "mesh"}]
+            else:
+                ops.append({"op": "put", "uri": "mv2://m%d" % (i + 1), "pay": i + 2, "cls": "text", "size": 70, "ts": i + 2})
+            if rng.random() < 0.3:
+                ops.append({"op": "mesh"})
+        ops += [{"op": "mesh"}, {"op": "close"}, {"op": "open_ro"}, {"op": "mesh"}, {"op": "cards"}, {"op": "close"}]
+        out.append(ops)
+    return out
+
+
 def fam_known(rng, quick):
     """Deterministic witnesses of the recorded findings (so a run shows them, and shows when they are gone)."""
     grow = [{"op": "create"},
@@ -750,7 +792,7 @@ def fam_payload_sizes(rng, quick):
     return out
 
 
-EXTRA_FAMILIES += [fam_capacity_edges, fam_payload_sizes, fam_many_small, fam_tickets, fam_signed_tickets, fam_known, fam_maintenance, fam_cards]
+EXTRA_FAMILIES += [fam_capacity_edges, fam_payload_sizes, fam_many_small, fam_tickets, fam_signed_tickets, fam_mesh, fam_known, fam_maintenance, fam_cards]
 
 DEV_OWNER = {"D26_value_rewritten": "C26", "D01_commit_growth": "C01", "D08_update_chunked_empty": "C08", "D24_pending_ignored": "C24",
              "D24_payload_end_beyond_capacity": "C24"}
